@@ -109,9 +109,35 @@ def _mem_drop(I, a, d):
     return UNIT
 
 
+def default_of(I, ty):
+    """Default::default() of a type named by its printed name."""
+    ty = ty.strip()
+    m = I.models.lookup_trait("Default", "default", ty)
+    if m:
+        return m[0](I, [], {"self": ty, "trait": "Default", "segs": ("Default", "default"), "raw": "<%s as Default>::default" % ty})
+    tb = base_type_name(ty)[-1]
+    if tb == "PathBuf":
+        return mk_pathbuf(b"")
+    if tb == "Value":
+        from .serde import JsonValue
+        return JsonValue(None)
+    if tb in ("HashMap", "BTreeMap"):
+        return MapObj(tb == "BTreeMap")
+    f = I.idx.find_method(path_segments(strip_generics(ty)), "Default", ("default",))
+    if f:
+        return I.run_fn(f, [])
+    raise Inconclusive("Default::default for %s" % ty)
+
+
 @T.path("std::mem::take", "core::mem::take")
 def _mem_take(I, a, d):
-    raise Inconclusive("mem::take")
+    tf = turbofish_of(d, "take")
+    if not tf:
+        raise Inconclusive("mem::take without a printed type")
+    r = a[0]
+    old = r.loc.get()
+    r.loc.set(default_of(I, tf[0]))
+    return old
 
 
 @T.path("std::mem::replace", "core::mem::replace")
@@ -832,6 +858,20 @@ def _into(I, a, d):
     fb = base_type_name(d["self"])[-1]
     if fb == tb:
         return a[0]
+    selfty = (d.get("self") or "").strip()
+    if selfty.startswith("impl ") or re.fullmatch(r"[A-Z][A-Za-z0-9]{0,2}", selfty or "x"):
+        # a generic parameter (`impl Into<T>` / `T: Into<U>`): the conversion is decided by the value passed in
+        rt = getattr(v, "rust_type", None)
+        if rt == tb or (isinstance(v, Agg) and isinstance(v.ty, str) and v.ty.split("::")[-1] == tb) or (isinstance(v, Adt) and v.ty == tb):
+            return a[0]
+        if tb == "Value":
+            from .serde import JsonValue
+            if isinstance(v, JsonValue):
+                return a[0]
+            if isinstance(v, (BufObj, BytesRef)) and v.sb.is_concrete():
+                return JsonValue(v.sb.concrete().decode("utf-8", "replace"))
+            if isinstance(v, bool) or isinstance(v, int):
+                return JsonValue(v)
     if to in ("u16", "u32", "u64", "u128", "usize") and (isinstance(v, int) and not isinstance(v, bool) or (is_sym(v) and not z3.is_bool(v))):
         wd = {"u16": 16, "u32": 32, "u64": 64, "u128": 128, "usize": 64}[to]
         if isinstance(v, int):
